@@ -117,18 +117,19 @@ func (b *Block) setMiningBlob(m MiningBlob) error {
 	containsNetworkID := false
 	var lastNetworkId uint64 = 0
 	for i, v := range m.Chains {
+		// the whole list, the entry of this network included, must be strictly sorted by network id
+		// (the first chain has no predecessor to compare with: 0 is a valid network id)
+		if i > 0 && v.NetworkID <= lastNetworkId {
+			return fmt.Errorf("mining blob is not sorted correctly")
+		}
+		lastNetworkId = v.NetworkID
 		if v.NetworkID != config.NETWORK_ID {
-			// the first chain has no predecessor to compare with (0 is a valid network id)
-			if i > 0 && v.NetworkID <= lastNetworkId {
-				return fmt.Errorf("mining blob is not sorted correctly")
-			}
 			for _, oc := range b.OtherChains {
 				if oc.Hash == v.Hash || oc.NetworkID == v.NetworkID {
 					return fmt.Errorf("duplicate hashing id 0x%x %x", v.NetworkID, v.Hash)
 				}
 			}
 			b.OtherChains = append(b.OtherChains, v)
-			lastNetworkId = v.NetworkID
 		} else {
 			if containsNetworkID {
 				return fmt.Errorf("mining blob has duplicate network id")
